@@ -46,11 +46,8 @@ def run(rep, prop, mode, canary_fn):
     rep.bounds["generation"] = meta
     outs = corpus.run_forms(js)
     sub, acc, rejected = _rp.validate(rep, prop, outs, f"TLC-structured {mode} forms")
-    nok = sum(1 for o in sub if o["res"]["status"] == "ok")
+    nok = sum(1 for o in sub if o["res"]["status"] != "pyxform_error")  # only rejections by the converter mean the generator left the grammar; crashes and malformed output go to TLC as violations
     rep.extra["accepted_forms"] = nok
-    if nok < 0.9 * len(sub):
-        bad = next(o for o in sub if o["res"]["status"] != "ok")
-        raise tlc.MachineryError(f"generator produces too many rejected forms ({len(sub) - nok}/{len(sub)}): {bad['res'].get('message')} {bad['tag']}")
     for o, l, clause in rejected:
         rep.violation(f"{prop}:{clause}", f"trace rejected at event {l} clause {clause}; rows={o['tag']['rows']} status={o['res']['status']} {o['res'].get('message')}",
                       {"tag": o["tag"], "clause": clause, "event": l, "wb": o["wb"], "src": o["trace"][-1]["src"], "fmt": o["fmt"]})
